@@ -66,6 +66,29 @@ pub fn snapshot(dir: &Path) -> BTreeMap<String, u64> {
     out
 }
 
+/// Runs the CLI on the project under `dir/root` in one of three invocation styles chosen from the project's own text
+/// (so that a replay takes the same one): from the project directory; from the directory above with
+/// `--config-file root/<config>`; from a sub-directory with `--config-file ../<config>`. All three name the same project.
+pub fn run_cli_any_style(cli: &str, dir: &Path, root: &str, files: &[(String, String)], args: &[&str], timeout: Duration) -> (CliRun, &'static str) {
+    let cfg = files.iter().map(|(p, _)| p.as_str()).find(|p| p.starts_with(&format!("{root}/")) && p.contains("graphql.config"));
+    let h = files.iter().fold(0u64, |a, (p, t)| a.wrapping_mul(31).wrapping_add(crate::rng::hash_str(p) ^ crate::rng::hash_str(t)));
+    let sub = files.iter().filter_map(|(p, _)| p.strip_prefix(&format!("{root}/"))).filter_map(|p| p.split_once('/').map(|x| x.0.to_string())).find(|d| !d.starts_with('.'));
+    match (h % 3, cfg, sub) {
+        (1, Some(c), _) => {
+            let mut a: Vec<&str> = vec!["--config-file", c];
+            a.extend_from_slice(args);
+            (run_cli(cli, dir, &a, timeout), "from-parent-directory")
+        }
+        (2, Some(c), Some(sd)) => {
+            let rel = format!("../{}", c.rsplit('/').next().unwrap_or(c));
+            let mut a: Vec<&str> = vec!["--config-file", &rel];
+            a.extend_from_slice(args);
+            (run_cli(cli, &dir.join(root).join(sd), &a, timeout), "from-sub-directory")
+        }
+        _ => (run_cli(cli, &dir.join(root), args, timeout), "from-project-directory"),
+    }
+}
+
 pub fn run_cli(cli: &str, cwd: &Path, args: &[&str], timeout: Duration) -> CliRun {
     let mut cmd = Command::new(cli);
     cmd.args(args).current_dir(cwd).env_clear().env("PATH", "/usr/bin:/bin").env("HOME", "/tmp").stdin(Stdio::null()).stdout(Stdio::piped()).stderr(Stdio::piped());
